@@ -176,6 +176,183 @@ def check_instance(entry, r, pools, rng, ctx, stats):  # noqa: C901, PLR0912
     return fails
 
 
+def numeric_arrays_equal(a, b, rng, n_events=4):
+    """True / False / None: lambdify both sides (numpy, cse) over their array symbols and scalars and compare on
+    random real-valued four-momenta and positive scalars. None = code cannot be generated/run or is not finite."""
+    import warnings
+
+    import numpy as np
+    import sympy as sp
+    from sympy.tensor.array.expressions import ArraySymbol
+
+    warnings.filterwarnings("ignore", category=RuntimeWarning)
+    arrays = sorted(a.atoms(ArraySymbol) | b.atoms(ArraySymbol), key=str)
+    names = {arr.args[0] for arr in arrays}
+    free = sorted((s for s in (a.free_symbols | b.free_symbols) if isinstance(s, sp.Symbol) and s not in names), key=str)
+    if any(not isinstance(s, sp.Symbol) for s in (a.free_symbols | b.free_symbols) - names):
+        return None
+    lam_args = [*arrays, *free]
+    nprng = np.random.default_rng(rng.randrange(2**31))
+    vals = []
+    for arg in lam_args:
+        if arg in arrays:
+            mom = nprng.normal(size=(n_events, 3))
+            mass = nprng.uniform(0.1, 1.0, size=n_events)
+            vals.append(np.column_stack([np.sqrt((mom**2).sum(axis=1) + mass**2), mom]))
+        elif arg.is_integer:
+            vals.append(int(nprng.integers(0, 3)))
+        else:
+            vals.append(float(nprng.uniform(0.3, 0.9)))
+    try:
+        fa = sp.lambdify(lam_args, a, "numpy", cse=True)
+        fb = sp.lambdify(lam_args, b, "numpy", cse=True)
+        va = np.asarray(fa(*vals), dtype=complex)
+        vb = np.asarray(fb(*vals), dtype=complex)
+    except Exception:  # noqa: BLE001
+        return None
+    if va.shape != vb.shape:
+        try:
+            va, vb = np.broadcast_arrays(va, vb)
+        except ValueError:
+            return False
+    ok = np.isfinite(va) & np.isfinite(vb)
+    if not ok.any():
+        return None
+    scale = np.maximum(np.abs(vb[ok]), 1e-300)
+    return bool(np.all(np.abs(va[ok] - vb[ok]) <= 1e-9 * scale))
+
+
+def numeric_substitution_semantics(r, old, new, result, rng, n_events=4):
+    """Independent numerical reading of `r.subs(old, new).doit()` for an ArraySymbol `old`: the generated numpy code
+    of the result, evaluated on random four-momenta, must equal the code generated from `r.doit()` evaluated with
+    the array of `old` set to the numerical value of `new` (another array, or the sum of two arrays).
+    True / False / None (code cannot be generated or run, e.g. an undefined function is left)."""
+    import warnings
+
+    import numpy as np
+    import sympy as sp
+    from sympy.tensor.array.expressions import ArraySymbol
+
+    from ampform.sympy._array_expressions import ArraySum
+
+    warnings.filterwarnings("ignore", category=RuntimeWarning)
+    try:
+        orig = r.doit()
+    except Exception:  # noqa: BLE001
+        return None
+    arrays = sorted(orig.atoms(ArraySymbol) | result.atoms(ArraySymbol) | new.atoms(ArraySymbol) | {old}, key=str)
+    names = {arr.args[0] for arr in arrays}
+    frees = orig.free_symbols | result.free_symbols
+    if any(not isinstance(s_, sp.Symbol) for s_ in frees - names):
+        return None
+    scalars = sorted((s_ for s_ in frees if s_ not in names), key=str)
+    nprng = np.random.default_rng(rng.randrange(2**31))
+    data = {}
+    for arr in arrays:
+        mom = nprng.normal(size=(n_events, 3))
+        mass = nprng.uniform(0.1, 1.0, size=n_events)
+        data[arr] = np.column_stack([np.sqrt((mom**2).sum(axis=1) + mass**2), mom])
+    sval = {s_: (int(nprng.integers(0, 3)) if s_.is_integer else float(nprng.uniform(0.3, 0.9))) for s_ in scalars}
+    if isinstance(new, ArraySymbol):
+        new_value = data[new]
+    elif isinstance(new, ArraySum) and all(isinstance(t_, ArraySymbol) for t_ in new.args):
+        new_value = sum(data[t_] for t_ in new.args)
+    else:
+        return None
+    lam_args = [*arrays, *scalars]
+    try:
+        f_res = sp.lambdify(lam_args, result, "numpy", cse=True)
+        f_orig = sp.lambdify(lam_args, orig, "numpy", cse=True)
+        v_res = np.asarray(f_res(*[data[a] for a in arrays], *[sval[s_] for s_ in scalars]), dtype=complex)
+        v_ref = np.asarray(f_orig(*[(new_value if a == old else data[a]) for a in arrays], *[sval[s_] for s_ in scalars]), dtype=complex)
+    except Exception:  # noqa: BLE001
+        return None
+    if v_res.shape != v_ref.shape:
+        try:
+            v_res, v_ref = np.broadcast_arrays(v_res, v_ref)
+        except ValueError:
+            return False
+    ok = np.isfinite(v_ref) & np.isfinite(v_res)
+    if not ok.any():
+        return None
+    scale = np.maximum(np.abs(v_ref[ok]), 1e-300)
+    return bool(np.all(np.abs(v_res[ok] - v_ref[ok]) <= 1e-9 * scale))
+
+
+def check_term_keys(key, label, r, pools, rng, ctx, stats):  # noqa: C901, PLR0912
+    """Clause 1 with substitution KEYS that are terms, not plain symbols: an ArraySymbol four-momentum (replaced by
+    another one / by an ArraySum), an applied function, an indexed symbol, the compound sub-expression c**2 — `subs`
+    and `xreplace`, then unfold, against unfold, then substitute; structurally, by value, by the symbols that are
+    left, and numerically through lambdify for array-valued terms."""
+    import sympy as sp
+    from sympy.tensor.array.expressions import ArraySymbol
+
+    from tools.corr.C14 import term_key_requests
+
+    fails = []
+    rec = {"expr": sp.srepr(r)[:2000], "instance": str(r)[:300], "cls": key, "form": label, "non_sympy_attributes": all_attrs(r)}
+    for req in term_key_requests(r, rng, pools, oracle=True):
+        pairs = req["pairs"]
+        kind = req["kind"]
+        hows = ["xreplace"] if req.get("xreplace_only") else ["subs", "xreplace"]
+        if kind.startswith("compound"):
+            hows = ["subs"]  # xreplace is structural: x**4 does not contain the node x**2 (no law to check)
+        for how in hows:
+            try:
+                if how == "subs":
+                    lhs = r.subs(pairs).doit()
+                    rhs = r.doit().subs(pairs).doit()
+                else:
+                    lhs = r.xreplace(dict(pairs)).doit()
+                    rhs = r.doit().xreplace(dict(pairs)).doit()
+            except Exception as e:  # noqa: BLE001
+                if "not supported between instances of 'function'" in str(e):
+                    stats["unorderable_function_attributes_skipped"] = stats.get("unorderable_function_attributes_skipped", 0) + 1
+                else:
+                    stats["term_key_raised"] = stats.get("term_key_raised", 0) + 1
+                    stats.setdefault("term_key_raised_examples", []).append(f"{key}/{label}/{kind}: {type(e).__name__}: {str(e)[:80]}")
+                continue
+            stats["term_key_checks"] = stats.get("term_key_checks", 0) + 1
+            stats.setdefault("term_key_kinds", {})
+            stats["term_key_kinds"][kind + " / " + how] = stats["term_key_kinds"].get(kind + " / " + how, 0) + 1
+            base = {"class": f"{how} then unfold != unfold then {how}", **rec, "substitution_key_kind": kind,
+                    "map": {str(k): str(v) for k, v in pairs}, "subst_then_doit": str(lhs)[:400], "doit_then_subst": str(rhs)[:400]}
+            if kind.startswith("array-symbol") and len(pairs) == 1:
+                # independent of the order of operations: the substituted result computes what the original computes
+                # on the substituted DATA (generated numpy code on random four-momenta)
+                sem = numeric_substitution_semantics(r, pairs[0][0], pairs[0][1], lhs, rng)
+                stats["lambdify_semantics_" + ("undecided" if sem is None else "compared")] = \
+                    stats.get("lambdify_semantics_" + ("undecided" if sem is None else "compared"), 0) + 1
+                if sem is False:
+                    fails.append({**base, "class": f"{how} then unfold != unfold then {how}",
+                                  "why": "numpy code of the substituted-and-unfolded term differs from the code of the unfolded term "
+                                         "evaluated on the substituted four-momentum data"})
+                    continue
+            if lhs == rhs:
+                stats["term_key_structurally_equal"] = stats.get("term_key_structurally_equal", 0) + 1
+                continue
+            # the replaced keys must be gone from both sides, the same atoms must be left
+            left_l = {k for k, _ in pairs if lhs.has(k)}
+            left_r = {k for k, _ in pairs if rhs.has(k)}
+            atoms_l = lhs.atoms(ArraySymbol, sp.Symbol)
+            atoms_r = rhs.atoms(ArraySymbol, sp.Symbol)
+            if left_l != left_r or atoms_l != atoms_r:
+                fails.append({**base, "key_still_present_after_subst_then_doit": sorted(map(str, left_l)),
+                              "key_still_present_after_doit_then_subst": sorted(map(str, left_r)),
+                              "atoms_only_in_one_side": sorted(map(str, atoms_l ^ atoms_r))})
+                continue
+            verdict = None
+            if not lhs.has(ArraySymbol) and not rhs.has(ArraySymbol):
+                verdict = same_value(lhs, rhs, ctx)
+            if verdict is None:
+                verdict = numeric_arrays_equal(lhs, rhs, rng)
+                stats["term_key_lambdify_" + ("decided" if verdict is not None else "undecided")] = \
+                    stats.get("term_key_lambdify_" + ("decided" if verdict is not None else "undecided"), 0) + 1
+            if verdict is False:
+                fails.append(base)
+    return fails
+
+
 def check_template_globals(entry, pools, rng, ctx):
     """A symbol that `evaluate()` introduces although it is not an argument (and not a Dummy)
     is rewritten by a substitution after unfolding but not before: the law fails for it."""
